@@ -60,6 +60,9 @@ class SQLOperator:
     def sql(self, *operands: str) -> str:
         if self.custom_generator:
             return self.custom_generator(*operands)
+        if self.is_prefix and len(operands) == 1 and operands[0][:1] in ("-", "+"):
+            # "-" glued to a negative operand would read as the SQL line comment "--"
+            return self.sql_template.format(f"({operands[0]})")
         return self.sql_template.format(*operands)
 
 
